@@ -1,7 +1,7 @@
 use crate::{
     operation::{Operation, OperationControl},
     re_flags::ReFlags,
-    re_matcher::ReMatcher,
+    re_matcher::{ReMatcher, Snapshot},
     re_program::OPT_HASBACKREFS,
 };
 
@@ -24,6 +24,12 @@ impl Capture {
 #[cfg(regexml_verif)]
 impl Capture {
     pub(crate) fn verif_group_nr(&self) -> usize {
+        self.group_nr
+    }
+}
+
+impl Capture {
+    pub(crate) fn group_nr(&self) -> usize {
         self.group_nr
     }
 }
@@ -53,9 +59,6 @@ impl OperationControl for Capture {
         matcher: &'a ReMatcher<'a>,
         position: usize,
     ) -> Box<dyn Iterator<Item = usize> + 'a> {
-        if (matcher.program.optimization_flags & OPT_HASBACKREFS) != 0 {
-            matcher.set_start_backref(self.group_nr, Some(position));
-        }
         let basis = self.child_op.matches_iter(matcher, position);
 
         Box::new(CaptureGroupIterator::new(
@@ -76,6 +79,8 @@ struct CaptureGroupIterator<'a> {
     basis: Box<dyn Iterator<Item = usize> + 'a>,
     group_nr: usize,
     position: usize,
+    // the captured groups as they were before this group was entered
+    saved_state: Snapshot,
 }
 
 impl<'a> CaptureGroupIterator<'a> {
@@ -86,6 +91,7 @@ impl<'a> CaptureGroupIterator<'a> {
         position: usize,
     ) -> Self {
         Self {
+            saved_state: matcher.snapshot(),
             matcher,
             basis,
             group_nr,
@@ -98,7 +104,14 @@ impl Iterator for CaptureGroupIterator<'_> {
     type Item = usize;
 
     fn next(&mut self) -> Option<Self::Item> {
-        let next = self.basis.next()?;
+        let next = match self.basis.next() {
+            Some(next) => next,
+            None => {
+                // the group does not (or no longer) participate in the match
+                self.matcher.restore(&self.saved_state);
+                return None;
+            }
+        };
 
         // Increase valid paren count
         if self.group_nr >= self.matcher.paren_count() {
